@@ -4,7 +4,7 @@ from symx.run import Case, new_result
 from checks import common, c13
 
 ID = "C15"
-CONDS = ["unused_variable", "two_unused_variables", "unused_variable_fs", "placeholder_value", "cross_section_placeholder", "nested_cross_section", "placeholder_twice", "repeated_placeholder"]
+CONDS = ["unused_variable", "two_unused_variables", "unused_variable_fs", "placeholder_value", "cross_section_placeholder", "nested_cross_section", "placeholder_twice", "repeated_placeholder", "tabulation_placeholder"]
 META = dict(
   functions=["config._config_parser._RawConfigParser (default_section='Variables', ExtendedInterpolation; options/has_option/get)",
              "config._config_parser.ConfigParser: _check_for_duplicate_pairs, _parse_params_section, pair, potential_form, eam_embed, eam_density, eam_density_fs, species, table_form, "
